@@ -974,7 +974,7 @@ const Property C10 = {
      "probe_pop_to_empty", "probe_pop_on_empty", "fault_queue_overflow", "fault_alloc_failed_fw_push", "fault_alloc_failed_parser_push", "probe_overflow_on_huge_queue", "probe_more_than_65536_pushes_without_drain"},
     "seeded histories of 1..1500 (thorough: ..10000) operations {SCPI_ErrorPush[Ex] with unique texts / explicit or automatic length, SCPI_ErrorPop + "
     "release, SCPI_ErrorClear, SCPI_ErrorCount, controller messages with SYST:ERR?, SYST:ERR:COUN?, *CLS and undefined headers} on queues of capacity "
-    "1..6, allocation failures injected through the wrapped strndup per push; reference FIFO + allocation ledger compared after every operation. "
+    "1..6, allocation failures injected through the wrapped strndup per push; reference FIFO + allocation ledger compared after every operation. Also: capacities 16384..32767 with rotated rings, 66000 push/pop pairs on a never-empty queue, texts of 253..257 and up to 300 characters with bytes >= 0x80, explicit lengths beyond the text, pushes / clears / a second context's SYST:ERR? from inside the write callback, an error callback that refills or drains the queue. "
     "distinct_nontrivial = distinct canonical trace hashes of non-empty histories.",
 };
 const Property C20 = {
@@ -986,7 +986,7 @@ const Property C20 = {
     {"probe_ring_wrapped", "probe_pop_to_empty", "fault_queue_overflow", "probe_overflow_newcomer_has_text", "fault_push_inside_write_callback",
      "probe_push_while_error_response_is_sent"},
     "heap build; histories as for C10 with heap sizes 2..64 (and 600), texts of length 0..heap+3; reference queue 'exactly the pushed text or nothing', "
-    "text mandatory when the queue was empty and the text fits; exact-size heap under ASan. distinct_nontrivial = distinct canonical trace hashes.",
+    "text mandatory when the queue was empty and the text fits; exact-size heap under ASan. Also: no heap registered / heap of length 0, heaps up to 700, texts wrapped around the heap end while a second context answers a wrapped text of its own, pushes and clears from inside the write callback during SYST:ERR?, refilling error callback. distinct_nontrivial = distinct canonical trace hashes.",
 };
 const Property C18 = {
     "C18",
@@ -996,7 +996,7 @@ const Property C18 = {
     exec_c18,
     {"probe_response_cut_at_limit", "error_queries"},
     "codes with and without description, texts of length 0..400 with 0..3 double quotes at and around the 255 boundary, preceded by seeded push/pop "
-    "histories that move the heap cursor (heap build: texts split at the ring wrap); every SYST:ERR? response parsed by an independent 488.2 reader. "
+    "histories that move the heap cursor (heap build: texts split at the ring wrap); every SYST:ERR? response parsed by an independent 488.2 reader. Also: 266 user error descriptions (quotes, semicolon, empty, long) in configurations user and noinfouser, the wrap aligned with the 255 boundary, bytes >= 0x80, re-entrant callbacks as in C10/C20. "
     "distinct_nontrivial = distinct canonical trace hashes.",
 };
 PropertyRegistrar r10(&C10), r20(&C20), r18(&C18);
